@@ -88,6 +88,36 @@ register(
 )
 
 
+register(
+    "C07",
+    [vh_stage("c07", 4, 16)],
+    "every atom of length 0..2 (quick) / 0..3 (thorough) exhaustively plus random trees over zero-prefixed, sign-extended, printable, quote/backslash, 32-byte and multi-KiB atoms: "
+    "to(from(x))==x and classic/modern/clvmr tree hashes equal, in both integer modes; equality pools: for colliding spellings of a byte string (converted from CLVM, read from hex/decimal/quoted/bareword text) "
+    "all pairs must satisfy a==b <=> identical encodings and a==b => equal std hash. Distinct non-trivial = distinct values checked + distinct cross-spelling equal pairs",
+    assumptions=COMMON_ASSUME,
+    min_nontrivial=1000,
+)
+
+register(
+    "C08",
+    [vh_stage("c08", 4, 16)],
+    "atoms at every length-class boundary (0,1,0x3f/0x40,0x1fff/0x2000,0xfffff/0x100000, multi-MiB in thorough) alone and in trees, random trees: sexp_to_stream bytes == clvmr node_to_bytes and sexp_from_stream(bytes)==x; "
+    "decoder differential on every byte string of length <=2/<=3, truncations at every offset of valid encodings, flipped prefix bits, over-long prefixes, trailing garbage, random bytes: ours Ok(v) => clvmr Ok(v). "
+    "Distinct non-trivial = distinct inputs on which our decoder returned a value (compared with clvmr) or distinct round-tripped values",
+    assumptions=COMMON_ASSUME,
+    min_nontrivial=1000,
+)
+
+register(
+    "C09",
+    [vh_stage("c09", 8, 16)],
+    "every atom of length 0..2 (and length 3 over a 60-symbol alphabet quick / all 256 thorough) alone, in head position, non-head position, improper tail and nested head, plus random trees over all printable classes: "
+    "assemble(disassemble(x,v))==x for v=0,1,2; fixed integer mode: parse_sexp(print(from_clvm(x))) converts back to x and assemble(print(from_clvm(x)))==x. Distinct non-trivial = distinct (value, route) that round-tripped",
+    assumptions=COMMON_ASSUME,
+    min_nontrivial=1000,
+)
+
+
 def evidence(pid, plan, merged, tier, seed, wall, nviol, known_hits):
     c = merged["counters"]
     cov = {
